@@ -28,7 +28,8 @@ def run(ctx):
     ctx.check(len(ffs) == 1, f"{P}.ONE-READ", site, "one read per FAB", f"{len(ffs)} reads per FAB")
     for ff in ffs:
         ok = ff.count is not None and ip.eq(ff.arr.win_lo, Num(Ratio(8) * c * k)) and ip.eq(ff.count, Num(c))
-        ctx.check(ok, f"{P}.WINDOW", site, "window = the requested component of the FAB: [8*C*FIELD_INDEX, +8*C)",
+        ctx.decide(ok, ff.count is None or not fabio.undecidable(ff.count, ff.arr.win_lo), f"{P}.WINDOW", site,
+                   "window = the requested component of the FAB: [8*C*FIELD_INDEX, +8*C)",
                   f"window starts {ff.arr.win_lo.text()[:60]} with {ff.count.text()[:40] if ff.count else None} values",
                   where=loc(fi, ff.node))
     sk = res.events("seek_abs")
